@@ -44,7 +44,7 @@ SPEC = {
                  "C16_old_submit_window_lost_witness", "C16_old_submit_window_hang_witness", "C16_old_signal_lost_witness",
                  "C16_old_start_witness", "C16_old_start_race_witness", "C16_haswork_order_witness", "C16_signal_one_witness",
                  "C16_foreign_waiters_example", "C16_subscriber_stream",
-                 "C16_zero_workers_witness", "C16_sched_haswork_example", "C16_sched_foreign_example", "C16_sched_window_example", "C16_sched_window_busy_example", "C16_sched_gap_example", "C16_sched_restart_example", "C16_sched_start_race_example", "C16_old_sched_example", "C16_variant_sched_example", "C16_stack_fifo", "C16_counter_update", "C16_debounce", "C16_debounce_example", "C16_group_shutdown_wait", "C16_group_flags_monotone", "C16_group_wait_parents", "C16_group_stopped_pool_drains", "C16_group_shutdown_stops_children", "C16_group_shutdown_window_example", "C16_group_shutdown_orphan_example",
+                 "C16_zero_workers_witness", "C16_sched_haswork_example", "C16_sched_foreign_example", "C16_sched_window_example", "C16_sched_window_busy_example", "C16_sched_gap_example", "C16_sched_restart_example", "C16_sched_start_race_example", "C16_sched_reject_restart_example", "C16_reject_restart_example", "C16_old_sched_example", "C16_variant_sched_example", "C16_stack_fifo", "C16_counter_update", "C16_debounce", "C16_debounce_example", "C16_group_shutdown_wait", "C16_group_flags_monotone", "C16_group_wait_parents", "C16_group_stopped_pool_drains", "C16_group_shutdown_stops_children", "C16_group_shutdown_window_example", "C16_group_shutdown_orphan_example",
                  "C16_skeleton_WorkerPool_Start", "C16_skeleton_WorkerPool_startIfStopped", "C16_skeleton_WorkerPool_Submit", 
                  "C16_skeleton_WorkerPool_increasePendingTasksIfRunning", "C16_skeleton_WorkerPool_decreasePendingTasks", "C16_skeleton_WorkerPool_hasWork", 
                  "C16_skeleton_WorkerPool_IsRunning", "C16_skeleton_WorkerPool_Shutdown", "C16_skeleton_WorkerPool_stop", 
